@@ -71,7 +71,7 @@ def dominates_node(fn, guard_block, node):
     return g.dominates(guard_block, pos[0])
 
 
-def check(rule_arm, fn, exc, cond_ok, effects, what, effect_desc):
+def check(rule_arm, fn, exc, cond_ok, effects, what, effect_desc, loop_guard_ok=None):
     """generic guard obligation list for one function"""
     obs = []
     ts = [t for t in throws_of(fn, exc)]
@@ -124,7 +124,7 @@ def check(rule_arm, fn, exc, cond_ok, effects, what, effect_desc):
                       ('of which the documented condition is only one conjunct' if part else 'not by the documented condition'), UNDECIDED if part else VIOLATED, arm=rule_arm))
         return obs
     t, gb, c = good
-    late = [e for e in effects if reachable(fn, e) and not dominates_node(fn, gb, e)]
+    late = [e for e in effects if reachable(fn, e) and not dominates_node(fn, gb, e) and not (loop_guard_ok is not None and loop_guard_ok(fn, c, gb, e))]
     if late:
         obs.append(Ob('GUARD-DOM', fn, late[0], what + ' before ' + effect_desc,
                       f"check `{fmt_term(fn.term(c, inline=False))[:100]}` (line {fn.n(c)['l']}) does not dominate {effect_desc} at line {fn.n(late[0])['l']}", VIOLATED, arm=rule_arm))
@@ -291,8 +291,20 @@ def rules_c20(ctx):
                 a, b = (t[2], t[3]) if t[1] == '<' else (t[3], t[2])
                 a, b = strip_cast(a), strip_cast(b)
                 # next key  <  last stored key
-                return (a[0] == 'field' and a[1] == 'first' and any(s == ('param', 'first') for s in subterms(a)) and
-                        b[0] == 'field' and b[1] == 'first' and any(s[0] == 'call' and s[1] == 'std::prev' for s in subterms(b)))
+                if (a[0] == 'field' and a[1] == 'first' and any(s == ('param', 'first') for s in subterms(a)) and
+                        b[0] == 'field' and b[1] == 'first' and any(s[0] == 'call' and s[1] == 'std::prev' for s in subterms(b))):
+                    return True
+                # or: a validation pass over adjacent pairs of the input, `next->first < first->first` with next one element ahead
+                # of first (a range is sorted iff every adjacent pair is; the stored keys are a subsequence of it)
+                if a[0] == 'field' and a[1] == 'first' and b[0] == 'field' and b[1] == 'first':
+                    xa, xb = strip_cast(a[2]), strip_cast(b[2])
+                    if xa[0] == 'deref' and xb[0] == 'deref':
+                        ia, ib = strip_cast(xa[1]), strip_cast(xb[1])
+                        if ia[0] == 'local' and len(ia) == 3 and fn.defs.get(ia[2], {}).get('init'):
+                            it_ = strip_cast(fn.term(fn.defs[ia[2]]['init'], inline=False))
+                            ahead = it_[0] == 'call' and it_[1] == 'std::next' and strip_cast(it_[2][0]) == ib and (len(it_[2]) == 1 or strip_cast(it_[2][1]) == ('lit', 1))
+                            if ahead and _advance_together(fn, ia, ib):
+                                return True
             return False
         stores = []
         for i in f.all_ids():
@@ -303,8 +315,40 @@ def rules_c20(ctx):
                     pos = f.block_of(i)
                     if pos and any(s is not None and pos[0] in g.reachable_from(s) for s in g.succ[pos[0]]):
                         stores.append(i)
+        def prepass_ok(fn, c, gb, e):
+            # the test sits in a validation loop over all adjacent pairs that runs to completion before anything is stored: the
+            # loop's condition block dominates the store, the store is outside the loop, and the loop visits every pair
+            # (`for (next = std::next(first); next != last; ++first, ++next)`)
+            gg = graph(fn)
+            for i_ in fn.all_ids():
+                nd_ = fn.n(i_)
+                if nd_['c'] != 'ForStmt' or len(nd_['ch']) != 4 or c not in set(fn.walk(nd_['ch'][3])):
+                    continue
+                ct_ = strip_cast(fn.term(nd_['ch'][1], inline=False))
+                def is_last(x):
+                    x = strip_cast(x)
+                    return x == ('param', 'last') or (x[0] == 'local' and len(x) == 3 and fn.defs.get(x[2], {}).get('init') and not fn.defs[x[2]].get('writes') and
+                                                       strip_cast(fn.term(fn.defs[x[2]]['init'], inline=False)) == ('param', 'last'))
+                if not (ct_[0] == 'op' and len(ct_) == 4 and ct_[1] == '!=' and (is_last(ct_[2]) or is_last(ct_[3]))):
+                    return False
+                ahead = [x for x in (strip_cast(ct_[2]), strip_cast(ct_[3])) if not is_last(x)][0]
+                if not (ahead[0] == 'local' and len(ahead) == 3 and fn.defs.get(ahead[2], {}).get('init')):
+                    return False
+                it_ = strip_cast(fn.term(fn.defs[ahead[2]]['init'], inline=False))
+                def is_first(x):
+                    x = strip_cast(x)
+                    if x == ('param', 'first'):
+                        return True
+                    # the parameter of an inlined validation helper bound to `first` (it is advanced by the loop, hence not looked through)
+                    return x[0] == 'local' and len(x) == 3 and fn.defs.get(x[2], {}).get('init') and strip_cast(fn.term(fn.defs[x[2]]['init'], inline=False)) == ('param', 'first')
+                if not (it_[0] == 'call' and it_[1] == 'std::next' and is_first(it_[2][0])):
+                    return False
+                hb = [b_ for b_ in gg.reach if gg.cond(b_) and fn.strip(gg.cond(b_)) == fn.strip(nd_['ch'][1])]
+                pe = fn.block_of(e)
+                return bool(hb) and bool(pe) and gg.dominates(hb[0], pe[0]) and e not in set(fn.walk(i_))
+            return False
         obs += check('G5:unsorted', f, 'invalid_argument', cond5, stores,
-                     'a bulk-load key smaller than the last stored key is rejected with std::invalid_argument', 'the pair is stored')
+                     'a bulk-load key smaller than the last stored key is rejected with std::invalid_argument', 'the pair is stored', loop_guard_ok=prepass_ok)
         if not stores:
             raise AnalysisBroken(f"{f.qname}: in-loop store `*out++ = Item(...)` not found")
     # G6: ItemA(key, value)
@@ -571,11 +615,152 @@ def _tombstone_check_moved(ctx, U, item_ctor):
         if not {'first', 'last'} <= {p_['name'] for p_ in f.params} or (f.targs.get('V'), f.targs.get('K')) != (item_ctor.targs.get('V'), item_ctor.targs.get('K')):
             continue
         has = any(reachable(f, t) and guard_of(f, t)[0] is not None and is_tomb(f.term(guard_of(f, t)[1], inline=True)) for t in throws_of(f, 'invalid_argument'))
-        obs.append(Ob('GUARD-DOM', f, 0, 'every value of a bulk-loaded range is tested against the tombstone before it is stored',
-                      ('a tombstone test exists in the constructor' if has else 'no tombstone test in the constructor') +
-                      '; the Item constructor no longer rejects it, and whether the test covers every element of the range is a fact about a loop that this rule does not decide',
-                      UNDECIDED if has else VIOLATED, arm='G6:tombstone'))
+        cov = _tombstone_coverage(f, is_tomb) if has else None
+        if cov is not None and cov[0] is True:
+            obs.append(Ob('GUARD-DOM', f, 0, 'every value of a bulk-loaded range is tested against the tombstone before it is stored',
+                          'the Item constructor no longer rejects it; ' + cov[1], OK, arm='G6:tombstone'))
+        elif cov is not None and cov[0] is False:
+            obs.append(Ob('GUARD-DOM', f, cov[2], 'every value of a bulk-loaded range is tested against the tombstone before it is stored',
+                          'the Item constructor no longer rejects it; ' + cov[1], VIOLATED, arm='G6:tombstone'))
+        else:
+            obs.append(Ob('GUARD-DOM', f, 0, 'every value of a bulk-loaded range is tested against the tombstone before it is stored',
+                          ('a tombstone test exists in the constructor' if has else 'no tombstone test in the constructor') +
+                          '; the Item constructor no longer rejects it, and whether the test covers every element of the range is a fact about a loop that this rule does not decide',
+                          UNDECIDED if has else VIOLATED, arm='G6:tombstone'))
     return obs
+
+
+def _advance_together(fn, a, b):
+    """the only modifications of the two iterators are ++ in the increment of one and the same for statement"""
+    for i in fn.all_ids():
+        nd = fn.n(i)
+        if nd['c'] == 'ForStmt' and len(nd['ch']) == 4:
+            incs = [strip_cast(fn.term(fn.n(j)['ch'][0] if fn.n(j)['c'] == 'UnaryOperator' else fn.n(j)['args'][0], inline=False))
+                    for j in fn.walk(nd['ch'][2]) if (fn.n(j)['c'] == 'UnaryOperator' and fn.n(j).get('op') == '++') or (fn.n(j)['c'] == 'CXXOperatorCallExpr' and fn.n(j).get('op') == '++')]
+            if a in incs and b in incs:
+                inc_nodes = set(fn.walk(nd['ch'][2]))
+                others = []
+                for v in (a, b):
+                    d = fn.defs.get(v[2], {}) if v[0] == 'local' and len(v) == 3 else {}
+                    others += [w for w in d.get('writes', []) if w not in inc_nodes]
+                # a parameter (first) has no entry in defs: look for writes to it by name
+                return not others
+    return False
+
+
+def _tombstone_coverage(f, is_tomb):
+    """Which elements of [first, last) reach a tombstone test `x->second == tombstone` in a validation pass written with iterators
+    that only advance by ++: positions are affine in the iteration count (first -> 0, std::next(first) -> 1, last -> L; a loop
+    `for (...; c != last; ++a, ++b)` runs L - c0 times), so the set of tested positions is computed for L = 1..6 and compared
+    with {0..L-1}.  (True, text) | (False, text, node) | None when the shape is not this one."""
+    g = graph(f)
+    FIRST, LAST = ('param', 'first'), ('param', 'last')
+
+    def pos0(t, depth=0):
+        # position of an iterator expression outside any loop, as (offset, uses_L)
+        t = strip_cast(t)
+        if t == FIRST:
+            return 0
+        if t[0] == 'call' and t[1] == 'std::next' and len(t[2]) in (1, 2):
+            b = pos0(t[2][0], depth + 1)
+            k = strip_cast(t[2][1]) if len(t[2]) == 2 else ('lit', 1)
+            return None if b is None or k[0] != 'lit' else b + k[1]
+        if t[0] == 'op' and len(t) == 4 and t[1] == '+' and strip_cast(t[3])[0] == 'lit':
+            b = pos0(t[2], depth + 1)
+            return None if b is None else b + strip_cast(t[3])[1]
+        if t[0] == 'local' and len(t) == 3 and depth < 4:
+            d = f.defs.get(t[2], {})
+            if d.get('init'):
+                return pos0(f.term(d['init'], inline=False), depth + 1)
+        return None
+
+    tests = []      # (node, iterator variable term)
+    for t in throws_of(f, 'invalid_argument'):
+        if not reachable(f, t):
+            continue
+        gb, c = guard_of(f, t)
+        if gb is None:
+            continue
+        ct = strip_cast(f.term(c, inline=True))
+        if not is_tomb(ct):
+            continue
+        other = [x for x in (strip_cast(ct[2]), strip_cast(ct[3])) if not (x[0] == 'static')]
+        if len(other) != 1:
+            return None
+        x = other[0]
+        # (*it).second / it->second
+        if x[0] == 'field' and x[1] == 'second' and strip_cast(x[2])[0] == 'deref':
+            tests.append((c, strip_cast(strip_cast(x[2])[1]), gb))
+        else:
+            return None
+    if not tests:
+        return None
+    # the loops of the function and their increments
+    loops = []
+    for i in f.all_ids():
+        nd = f.n(i)
+        if nd['c'] == 'ForStmt' and len(nd['ch']) == 4:
+            init, cond, inc, body = nd['ch']
+            incs = []
+            st = [inc]
+            okinc = True
+            while st:
+                j = f.strip(st.pop())
+                nj = f.n(j)
+                if nj['c'] == 'BinaryOperator' and nj.get('op') == ',':
+                    st.extend(nj['ch'])
+                elif (nj['c'] == 'UnaryOperator' and nj.get('op') == '++') or (nj['c'] == 'CXXOperatorCallExpr' and nj.get('op') == '++'):
+                    incs.append(strip_cast(f.term(nj['ch'][0] if nj['c'] == 'UnaryOperator' else nj['args'][0], inline=False)))
+                else:
+                    okinc = False
+            ct = strip_cast(f.term(cond, inline=False))
+            if not okinc or not (ct[0] == 'op' and len(ct) == 4 and ct[1] in ('!=', '<')):
+                continue
+            a, b = strip_cast(ct[2]), strip_cast(ct[3])
+            if b != LAST:
+                a, b = b, a
+            if b != LAST or a not in incs:
+                continue
+            loops.append({'node': i, 'body': set(f.walk(body)), 'cond_var': a, 'incs': incs, 'init': init})
+    if len(loops) > 3:
+        return None
+
+    def var_init(v, loop):
+        # value of iterator variable v when the loop starts: declared in the for-init, a parameter advanced by nothing before, or a local
+        if v == FIRST:
+            # `first` itself may be advanced by an earlier loop: not handled
+            return 0
+        return pos0(v)
+    bad = None
+    for L in range(1, 7):
+        tested = set()
+        for (c, v, gb) in tests:
+            inside = [lp for lp in loops if c in lp['body']]
+            if not inside:
+                p0 = pos0(v)
+                if p0 is None:
+                    return None
+                if 0 <= p0 < L:
+                    tested.add(p0)
+                continue
+            lp = inside[0]
+            c0 = var_init(lp['cond_var'], lp)
+            v0 = var_init(v, lp)
+            if c0 is None or v0 is None or v not in lp['incs']:
+                return None
+            for t_ in range(0, max(0, L - c0)):
+                p_ = v0 + t_
+                if 0 <= p_ < L:
+                    tested.add(p_)
+                elif p_ >= L:
+                    return None     # a test past the end: END-GUARD's business, not coverage
+        missing = sorted(set(range(L)) - tested)
+        if missing and bad is None:
+            bad = (L, missing)
+    if bad:
+        return (False, f"with {bad[0]} element(s) the validation pass tests the values at position(s) {sorted(set(range(bad[0])) - set(bad[1]))} only: "
+                       f"position {bad[1][0]}" + (' (the last element)' if bad[1][0] == bad[0] - 1 else '') + ' is stored without a tombstone test', tests[0][0])
+    return (True, f"the validation pass tests every position of the range (affine iterator model, ranges of 1..6 elements, {len(tests)} test site(s))")
 
 
 def _throw_blocks(fn):
